@@ -61,34 +61,36 @@ def es5Engine (d : Dialect) (r : Re) : Spec.SEng where
 /-! ## construction -/
 
 inductive Built (α : Type)
-  | error
+  | error (cls : String)
   | opaque
   | ok (global : Bool) (d : Dialect) (r : α)
 
 /-- otto: newRegExpObject = flags, TransformRegExp, (?flags:…), regexp.Compile -/
 def buildModel (pat flags : List Nat) : Built Re :=
   match Model.parseFlags flags false false false with
-  | none => .error
+  | none => .error "SyntaxError"
   | some (g, i, mm) =>
     match Model.transform idc pat with
-    | .invalid => .error
-    | .incompatible _ => .error
+    | .invalid => .error "SyntaxError"              -- type_regexp.go: re2pattern == "" → not a pattern
+    | .incompatible _ => .error "TypeError"          -- a pattern re2 cannot do
     | .ok gp =>
       -- the wrapper (?im:…) is represented by the dialect record; a stray `)` in gp would close
       -- it early, but TransformRegExp has already rejected unbalanced parentheses
       match parsePattern true gp with
-      | .err => .error
+      | .err => .error "SyntaxError"
       | .opaque => .opaque
-      | .ok r => if goRepeatOk r then .ok g { es5 := false, icase := i, multiline := mm } r else .error
+      | .ok r => if goRepeatOk r then .ok g { es5 := false, icase := i, multiline := mm } r else .error "SyntaxError"
 
-/-- ES5: §15.10.4.1 + the property's "unsupported constructs are rejected" -/
+/-- ES5 §15.10.4.1: not a Pattern, or bad flags → SyntaxError.  A valid pattern with a look-ahead or a
+    back-reference is "rejected with an error" by the property; TypeError is what is specified here. -/
 def buildSpec (pat flags : List Nat) : Built Re :=
-  match Spec.parseFlags flags false false false with
-  | none => .error
-  | some (g, i, mm) =>
-    match parsePattern false pat with
-    | .ok r => if r.unsupported then .error else .ok g { es5 := true, icase := i, multiline := mm } r
-    | _ => .error
+  match parsePattern false pat with
+  | .ok r =>
+    (match Spec.parseFlags flags false false false with
+     | none => .error "SyntaxError"
+     | some (g, i, mm) =>
+       if r.unsupported then .error "TypeError" else .ok g { es5 := true, icase := i, multiline := mm } r)
+  | _ => .error "SyntaxError"
 
 /-! ## rendering -/
 
@@ -182,7 +184,7 @@ def devX (pat flags subj : List Nat) (steps : List Step) : List String :=
     let ml := flags.contains 109
     let has (p : Step → Bool) := steps.any p
     let execLike := has fun | .exec | .test => true | .mtch => !g | _ => false
-    let allLike := has fun | .mtch => g | .replaceS _ | .replaceF | .replaceK _ => g | .split _ => true | _ => false
+    let allLike := has fun | .mtch => g | .replaceS _ | .replaceF | .replaceK _ => g | _ => false
     let anyMatch := has fun | .setLI _ => false | _ => true
     let nl := nullable r
     base ++
@@ -201,8 +203,18 @@ def devX (pat flags subj : List Nat) (steps : List Step) : List String :=
 
 def devOut (ds : List String) : String := if ds.isEmpty then "-" else String.intercalate "," ds
 
-def builtTok : Built Re → String
-  | .error => "error" | _ => "ok"
+def flagsTok (flags : List Nat) : String :=
+  (if flags.contains 103 then "g" else "") ++ (if flags.contains 105 then "i" else "") ++ (if flags.contains 109 then "m" else "")
+
+/-- a constructed object: ok:<source as units>:<flags as toString prints them> -/
+def okTok (src : List Nat) (flags : List Nat) : String := "ok:" ++ unitsOut (Str.utf16Encode src) ++ ":" ++ flagsTok flags
+
+def builtTokM (pat flags : List Nat) : Built Re → String
+  | .error c => "throw:" ++ c
+  | _ => okTok (Model.regExpSource pat) flags
+def builtTokS (pat flags : List Nat) : Built Re → String
+  | .error c => "throw:" ++ c
+  | _ => okTok (Spec.source pat) flags
 
 def trOut : Model.TRes → String
   | .ok p => "ok:" ++ (if p.isEmpty then "-" else bytesOut (Str.encodeRunes p))
@@ -219,18 +231,52 @@ def handle (ws : List String) : String :=
   | ["new", p, f] => match hex? p, hex? f with
     | some pb, some fb =>
       let pat := Str.decodeRunes pb
-      builtTok (buildModel pat fb) ++ " " ++ builtTok (buildSpec pat fb) ++ " " ++ devOut (devNew pat fb)
+      builtTokM pat fb (buildModel pat fb) ++ " " ++ builtTokS pat fb (buildSpec pat fb) ++ " " ++ devOut (devNew pat fb)
     | _, _ => "bad-op"
   | ["x", p, f, s, st] => match hex? p, hex? f, hex? s, steps? st with
     | some pb, some fb, some sb, some steps =>
       let pat := Str.decodeRunes pb
       let mo := match buildModel pat fb with
-        | .error => "error"
+        | .error c => "throw:" ++ c
         | .opaque => "unmodelled"
         | .ok g d r => histOut (Model.run (goEngine d r) sb { global := g, lastIndex := .int 0 } steps)
       let sp := match buildSpec pat fb with
         | .ok g d r => histOut (Spec.run (es5Engine d r) (Str.unitsOfBytes sb) Str.unitsOfBytes { global := g, lastIndex := .int 0 } steps)
-        | _ => "error"
+        | .error c => "throw:" ++ c
+        | .opaque => "throw:SyntaxError"
+      mo ++ " " ++ sp ++ " " ++ devOut (devX pat fb sb steps)
+    | _, _, _, _ => "bad-op"
+  -- a RegExp object built FROM a RegExp object R = new RegExp(p, f):
+  --   mode n: new RegExp(R)   u: new RegExp(R, undefined)   f: RegExp(R)   e: new RegExp(R, "g")   c: RegExp(R, "g")
+  | ["xc", mode, p, f, s, st] => match hex? p, hex? f, hex? s, steps? st with
+    | some pb, some fb, some sb, some steps =>
+      let pat := Str.decodeRunes pb
+      let withNew := mode = "n" ∨ mode = "u" ∨ mode = "e"
+      let given := mode = "e" ∨ mode = "c"
+      let mo := match buildModel pat fb with
+        | .error c => "throw:" ++ c
+        | .opaque => "unmodelled"
+        | .ok _ _ _ =>
+          match Model.fromRegExp pat fb withNew given with
+          | none => "throw:TypeError"
+          | some (same, pat2, fl2) =>
+            match buildModel pat2 fl2 with
+            | .ok g d r => (if same then "same:" else "copy:") ++ okTok (Model.regExpSource pat2) fl2 ++ "|" ++
+                histOut (Model.run (goEngine d r) sb { global := g, lastIndex := .int 0 } steps)
+            | .error c => "throw:" ++ c
+            | .opaque => "unmodelled"
+      let sp := match buildSpec pat fb with
+        | .error c => "throw:" ++ c
+        | .opaque => "throw:SyntaxError"
+        | .ok _ _ _ =>
+          match Spec.fromRegExp pat fb withNew given with
+          | none => "throw:TypeError"
+          | some (same, pat2, fl2) =>
+            match buildSpec pat2 fl2 with
+            | .ok g d r => (if same then "same:" else "copy:") ++ okTok (Spec.source pat2) fl2 ++ "|" ++
+                histOut (Spec.run (es5Engine d r) (Str.unitsOfBytes sb) Str.unitsOfBytes { global := g, lastIndex := .int 0 } steps)
+            | .error c => "throw:" ++ c
+            | .opaque => "throw:SyntaxError"
       mo ++ " " ++ sp ++ " " ++ devOut (devX pat fb sb steps)
     | _, _, _, _ => "bad-op"
   | _ => "bad-op"
